@@ -105,6 +105,7 @@ static void c15_run(void) {
 			op->kind = r < 66 ? M_MERGE : r < 80 ? M_SUSPEND_RESUME : r < 88 ? M_REPLACE_HANDLER : M_PAUSE;
 			op->val = op->kind == M_PAUSE ? (uint64_t)g_range(1, 200) * USEC : D.type == 1 ? (1ull << g_n(20)) : 1 + g_n(1000);
 			op->burst = g_range(1, 4);
+			if (op->kind == M_SUSPEND_RESUME && g_chance(1, 3)) op->burst = 0;   // a bare suspend/resume pair: may land inside one invocation of the source
 		}
 	}
 	h_sample("%s source on %s queue, handler body %d, handler merges %d%s\n", tnames[D.type],
